@@ -465,7 +465,7 @@ func TestVerif_C17_cdheader(t *testing.T) {
 			}
 		}
 		ok := true
-		hdr, err := textproto.NewReader(bufioReader(block)).ReadMIMEHeader()
+		hdr, err := textproto.NewReader(c17BufioReader(block)).ReadMIMEHeader()
 		if err != nil {
 			ok = false
 		} else {
